@@ -13,13 +13,15 @@ From MV Require Import Opt.OptAgreeTop.
 From MV Require Import Opt.OptAgreeBlock.
 From MV Require Import Opt.OptAgreeFlow.
 From MV Require Import Opt.OptAgreeQuoted.
+From MV Require Import Opt.OptAgreeFin.
 Import ListNotations.
 Open Scope N_scope.
 
 Lemma wf_item_ok it : wf_item it = true -> OptAgree.item_ok it.
 Proof.
-  destruct it as [t tr|k ksp v tr]; [intros; exact I|].
-  cbn [wf_item OptAgree.item_ok]. intros Hwf. apply andb_true_iff in Hwf as [Hk Hv]. split.
+  destruct it as [n t tr|k ksp v tr]; [intros; exact I|].
+  cbn [wf_item OptAgree.item_ok]. intros Hwf. apply andb_true_iff in Hwf as [Hwf Htr].
+  apply andb_true_iff in Hwf as [Hk Hv]. split.
   - destruct k as [l|t|t].
     + apply key_spec_plain. exact Hk.
     + apply key_spec_single. exact Hk.
@@ -29,14 +31,47 @@ Proof.
       * apply value_spec_plain. exact Hv.
       * apply value_spec_single. exact Hv.
       * apply value_spec_double. exact Hv.
-    + apply value_spec_block. exact Hv.
+    + apply value_spec_block; [exact Hv | exact Htr].
 Qed.
 
-(* per family: a block whose only item has the given key / value *)
 Theorem yaml_agree b : wf_block b = true ->
   options_to_items (print_block b) = Ok (meaning_block b).
 Proof.
-  intros Hwf. apply block_agree; [exact Hwf|].
-  unfold wf_block in Hwf. rewrite forallb_forall in Hwf.
-  apply Forall_forall. intros it Hin. apply wf_item_ok. auto.
+  intros Hwf. pose proof Hwf as Hwf0. unfold wf_block in Hwf0.
+  apply andb_true_iff in Hwf0 as [Hwf0 _]. apply andb_true_iff in Hwf0 as [Hwf0 _].
+  rewrite forallb_forall in Hwf0.
+  apply block_agree; [exact Hwf | |].
+  - apply Forall_forall. intros it Hin. apply wf_item_ok. auto.
+  - intros k ksp vsp f tsp cm tr Hin. specialize (Hwf0 _ Hin). cbn [wf_item wf_value] in Hwf0.
+    apply bare_flow. apply andb_true_iff in Hwf0 as [Hwf0 _]. apply andb_true_iff in Hwf0 as [_ Hv].
+    apply andb_true_iff in Hv as [Hv _]. apply andb_true_iff in Hv as [_ Hv]. exact Hv.
+Qed.
+
+(* the final line break is optional when the last line is a key with its value (if any) on it *)
+Lemma print_block_nolf lead items : last_item_ok items = true ->
+  print_block (BK lead items true) = print_block (BK lead items false) ++ [10].
+Proof.
+  intros H. unfold print_block. cbn [b_lead b_items b_final_nl]. rewrite <- app_assoc. f_equal.
+  induction items as [|it r IH]; [discriminate|].
+  destruct r as [|it' r'].
+  - cbn [last_item_ok] in H. cbn [print_items_fin].
+    destruct it as [n t tr|k ksp v tr]; [discriminate|].
+    destruct v as [tsp cm|vsp f tsp cm|]; destruct tr; try discriminate;
+      cbn [print_item print_item_nolf print_value print_value_nolf bl map concat];
+      rewrite ?app_nil_r, <- ?app_assoc; reflexivity.
+  - cbn [last_item_ok] in H.
+    change (print_items_fin true (it :: it' :: r')) with (print_item it ++ print_items_fin true (it' :: r')).
+    change (print_items_fin false (it :: it' :: r')) with (print_item it ++ print_items_fin false (it' :: r')).
+    rewrite (IH H), <- app_assoc. reflexivity.
+Qed.
+
+Theorem final_newline_optional lead items :
+  wf_block (BK lead items true) = true -> last_item_ok items = true ->
+  options_to_items (print_block (BK lead items false)) = options_to_items (print_block (BK lead items true)).
+Proof.
+  intros Hwf Hlast. rewrite (yaml_agree _ Hwf).
+  assert (Hwf' : wf_block (BK lead items false) = true).
+  { unfold wf_block in *. cbn [b_items b_final_nl] in *. rewrite Hlast.
+    apply andb_true_iff in Hwf as [Hwf _]. rewrite Hwf. reflexivity. }
+  rewrite (yaml_agree _ Hwf'). reflexivity.
 Qed.
